@@ -354,7 +354,7 @@ pub fn resolve(spec: &Spec, out: &[u8]) -> Result<Resolved, Bad> {
         let o = &out[pos as usize..end as usize];
         // compare the payload outside the offset fields
         let mut cur = 0usize;
-        let mut cmp = |a: usize, b: usize| -> Result<(), Bad> {
+        let cmp = |a: usize, b: usize| -> Result<(), Bad> {
             if o[a..b] != p[a..b] {
                 let k = (a..b).find(|&k| o[k] != p[k]).unwrap_or(a);
                 return Err(bad(
